@@ -33,13 +33,14 @@ BODIES = {
                      "x.tr.Select(lambda t, t_1=1: (t.q, t_1, y))" if False else "x.tr.Select(lambda t: (lambda t_1: (t.q, t_1, y))(2))",
                      "x.tr.Select(lambda t: (lambda t_1: (t.q, y))(2))"],
 }
-FORMS = ("def1", "defdoc", "lambda", "multi", "effect")
+FORMS = ("def1", "defdoc", "lambda", "multi", "effect", "xmod", "closure")
 
 # call sites: lambda e over an event; {H} the helper name; argument expressions chosen so that some mention names
 # that are also bound inside helper bodies (t, j, x, y, e)
 SITES = {
     ("Int",): ["{H}(e.a)", "{H}(x=e.a)", "{H}(e.a) + {H}(e.b)", "e.jets.Select(lambda x: {H}(x.pt))",
-               "e.jets.Select(lambda y: {H}(y.pt + e.a))", "e.jets.Select(lambda t: {H}(t.pt))"],
+               "e.jets.Select(lambda y: {H}(y.pt + e.a))", "e.jets.Select(lambda t: {H}(t.pt))",
+               "e.jets.Select(lambda s: {H}(s.pt))", "e.jets.Select(lambda v: {H}(v.pt + e.a))"],
     ("Jet",): ["e.jets.Select(lambda j: {H}(j))", "e.jets.Select(lambda x: {H}(x))", "e.jets.Select(lambda t: {H}(t))",
                "e.jets.Select(lambda j: {H}(x=j))", "e.jets.Where(lambda j: j.pt > 0).Select(lambda j: ({H}(j), e.a))"],
     ("Ev",): ["{H}(e)", "{H}(x=e)", "({H}(e), e.a)"],
@@ -71,6 +72,12 @@ def helper_def(name, params, body, form):
     if form == "multi":
         # two statements: cannot be inlined, must be left as a call by name
         return f"def {name}({ps}):\n    result = {body}\n    return result\n"
+    if form == "xmod":
+        # defined in ANOTHER module, using a global of that module; the lambda's module has a global of the same name
+        return f"OFF = 3\ndef {name}({ps}): return ({body}, OFF)\n"
+    if form == "closure":
+        # uses a variable of its enclosing function; the lambda's module has a global of the same name
+        return f"def mk_{name}():\n    OFF = 5\n    def {name}({ps}): return ({body}, OFF)\n    return {name}\n{name} = mk_{name}()\n"
     if form == "effect":
         # an expression statement with an effect before the return: not a one-line helper either
         return f"def {name}({ps}):\n    EFFECTS.append('{name}')\n    return {body}\n"
@@ -132,17 +139,30 @@ class C05(Check):
 
         params = ["x", "y"][:len(sig)]
         res = {"n": 0, "nt": [canon], "oc": [], "tags": {}, "viol": []}
+        g = {"len": len, "list": list, "EFFECTS": []}
+        pre = []
         if o is None:
             text = helper_def("h", params, body, form)
         else:
             text = helper_def("g", params, body, form) + helper_def("h", params, NESTED[sig][o], form)
+        if form == "xmod":
+            # the helper module (its own globals, its own source file)
+            _N[0] += 1
+            hfn = f"<c05hmod{_N[0]}>"
+            linecache.cache[hfn] = (len(text), None, text.splitlines(True), hfn)
+            pre.append(hfn)
+            hg = {"len": len, "list": list}
+            exec(compile(text, hfn, "exec"), hg)
+            g.update({k: v for k, v in hg.items() if k in ("h", "g")})
+            text = "OFF = 99\n"
+        elif form == "closure":
+            text = "OFF = 99\n" + text
         site = site_tpl.format(H="h")
         lam_src = f"lambda e: {site}"
         text += f"def build(ds):\n    return ds.Select(\n        {lam_src}\n    )\n"
         _N[0] += 1
         fn = f"<c05mod{_N[0]}>"
         linecache.cache[fn] = (len(text), None, text.splitlines(True), fn)
-        g = {"len": len, "list": list, "EFFECTS": []}
         exec(compile(text, fn, "exec"), g)
 
         class DS(EventDataset):
@@ -157,6 +177,8 @@ class C05(Check):
             return res
         finally:
             linecache.cache.pop(fn, None)
+            for f_ in pre:
+                linecache.cache.pop(f_, None)
         emitted = st.query_ast.args[1]
         helpers = {k: v for k, v in g.items() if k in ("h", "g")}
         free = refsem.free_names(emitted) - set(helpers) - {"len", "list"}
